@@ -13,7 +13,7 @@ ID = "C11"
 LEVEL = "exploration"
 BUDGET = {"quick": 55, "thorough": 900}
 QUICK_CASES = 1200
-FLOOR = {"quick": 500, "thorough": 5000}
+FLOOR = {"quick": 500, "thorough": 500}  # conclusive cases below which a run is inconclusive (the thorough tier is time-budgeted: same floor)
 TIMEOUT = 120
 REQUIRED_OBS = ["programs", "files", "import_edges", "cross_context_calls", "raising_cross_calls", "callbacks_into_caller_file", "entries_run", "entries_via_trigger", "entries_via_service", "entries_via_task", "global_tables_compared", "module_singleton_checks", "jupyter_contexts", "star_imports", "relative_imports", "sibling_relative_imports", "scoped_functions", "scoped_calls", "expression_triggers", "foreign_decorated_triggers", "expression_trigger_runs"]
 RULE = (
